@@ -235,6 +235,14 @@ func (rm *RpcMultiplexer) handleResponse(rpc *goatorepo.Rpc) {
 		return
 	}
 	select {
+	case <-h.gone:
+		// Once one Rpc of a departing call has been dropped (below), none of its
+		// later ones may still get through: the call would see a stream with a
+		// hole in it, or its trailer without the messages before it.
+		return
+	default:
+	}
+	select {
 	case h.ch <- rpc:
 	case <-h.gone:
 		// The call has stopped reading and is waiting for the mutex we hold in
